@@ -116,6 +116,15 @@ func mintConfigs(thorough bool) []mintCfg {
 			}
 		}
 	}
+	// a configuration start with a sub-millisecond part (linear emission is defined on millisecond-
+	// truncated instants): the grid contains every period end exactly
+	for _, st := range []time.Duration{500 * time.Microsecond, 999999 * time.Nanosecond} {
+		for _, a := range []string{"1000003", "7", "1000000"} {
+			for _, l := range redLast[:3] {
+				out = append(out, mintCfg{Start: st, Periods: []mp{withEnd(mp{Kind: ref.Linear, Amount: a}, 10*time.Second), withEnd(mp{Kind: ref.Linear, Amount: "500000"}, 20*time.Second), l}})
+			}
+		}
+	}
 	// period ids need not start at 1 (validation asks only for consecutive ids above 0): the
 	// reduced two- and three-period families again with ids from 2 and from 5
 	for _, first := range []int{2, 5} {
